@@ -107,6 +107,7 @@ func propC09(w *World, r *Report) {
 	checkBestOrder(w, r)
 	checkIDRangeOffset(w, r)
 	checkSeg12Break(w, r)
+	checkLangField(w, r)
 	entries := mustFuncs(w, r, detEntries["C09"]...)
 	fns := srcFuncsReachable(w, entries)
 	var cm []*ssa.Function
@@ -128,6 +129,10 @@ func propC09(w *World, r *Report) {
 	RunBigEndian(w, r, func(p string) bool { return p == modPath+"/cmap" })
 	RunNarrowArith(w, r, cm)
 	RunControl(r, "narrowarith", "ctlNarrowArith", RunNarrowArith)
+	for _, a := range boundsAssumptions {
+		r.Assumes(a)
+	}
+	RunLosslessFor(w, r, "C09", newBoundsRun(w))
 	r.Floor("bigendian/read", 15)
 	r.Floor("mapdet", 4)
 }
@@ -377,4 +382,211 @@ func checkSeg12Break(w *World, r *Report) {
 	}
 	r.Fail("seg12break", key, w.Pos(fn.Pos()), "no comparison of adjacent sorted code points (keys[i] against keys[i-1]+1) decides the group boundaries: code points that are not consecutive can end up in one group, which then covers code points that are not mapped", nil)
 	r.Floor("seg12break", 1)
+}
+
+// checkLangField: the language field of a cmap subtable header is the
+// uint16 at offset 4 for formats 0, 2, 4, 6 and the low half (offset 10) of
+// the uint32 at offset 8 for formats 8, 10, 12, 13 (OpenType cmap, subtable
+// headers).  Decode's reads and the byte-literal writers are compared with
+// this table.
+func checkLangField(w *World, r *Report) {
+	r.Rule("langfield: cmap.Decode reads the language of a subtable from header bytes 4,5 (formats 0, 2, 4, 6) or 10,11 (formats 8, 10, 12, 13), and the encoders that build the header as a byte literal (Format0.Encode, Format12.Encode) put byte(language>>8), byte(language) at the same offsets")
+	want := map[int64]int64{0: 4, 2: 4, 4: 4, 6: 4, 8: 10, 10: 10, 12: 10, 13: 10}
+	dec := w.Func("cmap.Decode")
+	if dec == nil {
+		r.Fatal("cmap.Decode does not resolve")
+		return
+	}
+	br := newBoundsRun(w)
+	p := br.prover(dec)
+	// byteAt: v is uintN(data[X]) -> linear form of X
+	byteAt := func(v ssa.Value) (blin, bool) {
+		for {
+			if c, ok := v.(*ssa.Convert); ok {
+				v = c.X
+				continue
+			}
+			break
+		}
+		u, ok := v.(*ssa.UnOp)
+		if !ok || u.Op != token.MUL {
+			return blin{}, false
+		}
+		ia, ok := u.X.(*ssa.IndexAddr)
+		if !ok {
+			return blin{}, false
+		}
+		return p.linOf(ia.Index), true
+	}
+	seen := map[int64]bool{}
+	for _, b := range dec.Blocks {
+		for _, in := range b.Instrs {
+			bo, ok := in.(*ssa.BinOp)
+			if !ok || bo.Op != token.OR || btypeBits(bo.Type()) != 16 {
+				continue
+			}
+			hi, ok := bo.X.(*ssa.BinOp)
+			if !ok || hi.Op != token.SHL {
+				continue
+			}
+			if k, ok := bconstInt(hi.Y); !ok || k != 8 {
+				continue
+			}
+			ih, ok1 := byteAt(hi.X)
+			il, ok2 := byteAt(bo.Y)
+			if !ok1 || !ok2 {
+				continue
+			}
+			// is this the language? its value flows into the Language field of a key
+			if !flowsToField(bo, "Language", 0) {
+				continue
+			}
+			d, ok := il.sub(ih)
+			if !ok || !d.isConst() || d.k != 1 {
+				continue
+			}
+			// the formats that lead to this block
+			var formats []int64
+			var collect func(bb *ssa.BasicBlock, depth int)
+			visited := map[*ssa.BasicBlock]bool{}
+			collect = func(bb *ssa.BasicBlock, depth int) {
+				if visited[bb] || depth > 12 {
+					return
+				}
+				visited[bb] = true
+				for _, pr := range bb.Preds {
+					if len(pr.Instrs) == 0 {
+						continue
+					}
+					if ifi, ok := pr.Instrs[len(pr.Instrs)-1].(*ssa.If); ok {
+						if cmp, ok := ifi.Cond.(*ssa.BinOp); ok && cmp.Op == token.EQL && pr.Succs[0] == bb {
+							if c, ok := bconstInt(cmp.Y); ok {
+								formats = append(formats, c)
+								continue
+							}
+						}
+						// another test inside the case body: go on upwards
+						if len(bb.Preds) == 1 {
+							collect(pr, depth+1)
+						}
+						continue
+					}
+					if len(pr.Instrs) == 1 || len(bb.Preds) == 1 { // forwarding block / straight line
+						collect(pr, depth+1)
+					}
+				}
+			}
+			collect(b, 0)
+			// offset relative to the subtable start o: the atom part must be shared with the format read
+			for _, f := range formats {
+				exp, known := want[f]
+				key := r.MkKey("langfield", "cmap.Decode", fmt.Sprintf("format %d", f))
+				if !known {
+					continue
+				}
+				seen[f] = true
+				// ih = o + A: compare with the index of the format word (o + 0)
+				okOff := false
+				for _, fb := range dec.Blocks {
+					for _, fi := range fb.Instrs {
+						if ia, ok := fi.(*ssa.IndexAddr); ok {
+							base := p.linOf(ia.Index)
+							if dd, ok := ih.sub(base); ok && dd.isConst() && dd.k == exp && len(base.t) > 0 {
+								// base must be the subtable offset: some read at base and base+1 forms the format
+								okOff = okOff || sameAtoms(base, ih)
+							}
+						}
+					}
+				}
+				if okOff {
+					r.OK("langfield", key, w.Pos(bo.Pos()), fmt.Sprintf("language read from header bytes %d,%d", exp, exp+1))
+				} else {
+					r.Fail("langfield", key, w.Pos(bo.Pos()), fmt.Sprintf("for format %d the language is read from %s,+1 but the format stores it at header bytes %d,%d", f, p.linStr(ih), exp, exp+1), nil)
+				}
+			}
+		}
+	}
+	for f := range want {
+		if !seen[f] {
+			key := r.MkKey("langfield", "cmap.Decode", fmt.Sprintf("format %d", f))
+			r.Fail("langfield", key, w.Pos(dec.Pos()), fmt.Sprintf("no read of the language field found for format %d", f), nil)
+		}
+	}
+	// writers
+	for name, off := range map[string]int64{"(*cmap.Format0).Encode": 4, "(cmap.Format12).Encode": 10} {
+		fn := w.Func(name)
+		key := r.MkKey("langfield", name, "language written")
+		if fn == nil || len(fn.Params) < 2 {
+			r.Fail("langfield", key, "-", "encoder does not resolve", nil)
+			continue
+		}
+		lang := fn.Params[len(fn.Params)-1]
+		got := int64(-1)
+		for _, b := range fn.Blocks {
+			for _, in := range b.Instrs {
+				st, ok := in.(*ssa.Store)
+				if !ok {
+					continue
+				}
+				cv, ok := st.Val.(*ssa.Convert)
+				if !ok {
+					continue
+				}
+				sh, ok := cv.X.(*ssa.BinOp)
+				if !ok || sh.Op != token.SHR || sh.X != ssa.Value(lang) {
+					continue
+				}
+				if ia, ok := st.Addr.(*ssa.IndexAddr); ok {
+					if c, ok := bconstInt(ia.Index); ok {
+						got = c
+					}
+				}
+			}
+		}
+		if got == off {
+			r.OK("langfield", key, w.Pos(fn.Pos()), fmt.Sprintf("byte(language>>8) at header offset %d", off))
+		} else {
+			r.Fail("langfield", key, w.Pos(fn.Pos()), fmt.Sprintf("byte(language>>8) is written at header offset %d, the format stores the language at %d", got, off), nil)
+		}
+	}
+	r.Floor("langfield", 10)
+}
+
+func sameAtoms(a, b blin) bool {
+	if len(a.t) != len(b.t) {
+		return false
+	}
+	for k, v := range a.t {
+		if b.t[k] != v {
+			return false
+		}
+	}
+	return true
+}
+
+// flowsToField: v reaches (through phis and conversions) a store into a struct field of that name.
+func flowsToField(v ssa.Value, field string, depth int) bool {
+	if depth > 6 || v.Referrers() == nil {
+		return false
+	}
+	for _, ref := range *v.Referrers() {
+		switch x := ref.(type) {
+		case *ssa.Phi:
+			if flowsToField(x, field, depth+1) {
+				return true
+			}
+		case *ssa.Convert:
+			if flowsToField(x, field, depth+1) {
+				return true
+			}
+		case *ssa.Store:
+			if fa, ok := x.Addr.(*ssa.FieldAddr); ok && x.Val == v {
+				st := fa.X.Type().Underlying().(*types.Pointer).Elem().Underlying().(*types.Struct)
+				if st.Field(fa.Field).Name() == field {
+					return true
+				}
+			}
+		}
+	}
+	return false
 }
